@@ -67,7 +67,7 @@ CLAIMED = {
     "C12": ("exploration",
             "deterministic simulation: write -> simulated storage (short writes) -> read (short reads) pipeline over "
             "every configuration the real loader accepts; conservation oracle (rows out = rows in, exactly once, in order)",
-            "Seeded search over configuration x table x target x source x chunk schedule plus a sweep offering all 4480 "
+            "Seeded search over configuration x table x target x source x chunk schedule plus a sweep offering all 5120 "
             "configurations to the loader; evidence, not proof.",
             "The domain is what DataFormat.set_property/validate accepts; rows have >= 1 column.",
             "DESIGN.md section 5, C12"),
